@@ -251,6 +251,9 @@ type c10World struct {
 
 	treasury   map[types.ZenonTokenStandard]*big.Int // value sent by unjudged liquidity treasury methods
 	treasuryBy map[types.ZenonTokenStandard]string
+	surplus    map[string]*big.Int // contract+token -> balance minus liabilities at surplusAt
+	surplusAt  map[string]uint64
+	hrng       *rand.Rand // PRNG of hostile deposits (separate from the history's)
 
 	actors []*c10Actor
 	byAddr map[types.Address]*c10Actor
@@ -1102,6 +1105,26 @@ func (w *c10World) checkBacking(h uint64, contract types.Address, st store.Accou
 		if sums[z].Sign() > 0 {
 			w.c.SetAdd("backing_checked", name+" "+c10TokenClass(z)+" "+source)
 		}
+		// what a contract holds beyond what it owes never shrinks: every entry is created with the amount received and
+		// every release removes what it pays (the liquidity contract's treasury methods spend on purpose: not judged)
+		if source == "storage" && contract != types.LiquidityContract {
+			if w.surplus == nil {
+				w.surplus = map[string]*big.Int{}
+			}
+			k := name + " " + z.String()
+			cur := new(big.Int).Sub(bal, sums[z])
+			if prev := w.surplus[k]; prev != nil && cur.Cmp(prev) < 0 && w.surplusAt[k]+1 == h {
+				w.violation(fmt.Sprintf("surplus-decreased %s %s", name, c10TokenClass(z)), map[string]interface{}{
+					"height": h, "token": z.String(), "liabilities": sums[z].String(), "balance": bal.String(), "surplus_before": prev.String(), "surplus_now": cur.String(), "parts": parts,
+					"note": "liabilities grew by more than the balance (an entry without the value behind it) or the balance shrank by more than the liabilities (a release beyond the entry)"}, nil)
+			}
+			w.surplus[k] = cur
+			if w.surplusAt == nil {
+				w.surplusAt = map[string]uint64{}
+			}
+			w.surplusAt[k] = h
+			w.c.Eval(1)
+		}
 		if sums[z].Cmp(bal) > 0 {
 			sig := fmt.Sprintf("backing-violated %s %s", name, c10TokenClass(z))
 			if t := w.treasury[z]; contract == types.LiquidityContract && t != nil && sums[z].Cmp(new(big.Int).Add(bal, t)) <= 0 {
@@ -1758,7 +1781,7 @@ func (w *c10World) actStake(build bool) {
 	if w.bal(a.Addr, types.ZnnTokenStandard).Cmp(amt) < 0 {
 		return
 	}
-	w.send(a, types.StakeContract, types.ZnnTokenStandard, amt, definition.ABIStake.PackMethodPanic(definition.StakeMethodName, dur), fmt.Sprintf("Stake(%d)", dur), "")
+	w.send(a, types.StakeContract, w.wrongToken(a, types.ZnnTokenStandard, amt), amt, definition.ABIStake.PackMethodPanic(definition.StakeMethodName, dur), fmt.Sprintf("Stake(%d)", dur), "")
 }
 
 func (w *c10World) actLiqStake() {
@@ -1790,6 +1813,26 @@ func (w *c10World) actLiqStake() {
 	w.send(a, types.LiquidityContract, z, amt, definition.ABILiquidity.PackMethodPanic(definition.LiquidityStakeMethodName, dur), fmt.Sprintf("LiquidityStake(%d)", dur), "")
 }
 
+// wrongToken: now and then a deposit call carries the other coin in the same, valid-looking amount. Decided by its own
+// PRNG so that the histories stay what they were.
+func (w *c10World) wrongToken(a *c10Actor, z types.ZenonTokenStandard, amt *big.Int) types.ZenonTokenStandard {
+	if w.hrng == nil {
+		w.hrng = rand.New(rand.NewSource(fw.SeedFor(w.c.Seed, "c10-hostile-deposits/"+w.id)))
+	}
+	if w.hrng.Intn(7) != 0 {
+		return z
+	}
+	o := types.ZnnTokenStandard
+	if z == types.ZnnTokenStandard {
+		o = types.QsrTokenStandard
+	}
+	if w.bal(a.Addr, o).Cmp(amt) < 0 {
+		return z
+	}
+	w.c.Count("deposits_attempted_in_the_wrong_token", 1)
+	return o
+}
+
 func (w *c10World) actFuse() {
 	a := w.pick(w.actors)
 	ben := a
@@ -1800,7 +1843,7 @@ func (w *c10World) actFuse() {
 	if w.bal(a.Addr, types.QsrTokenStandard).Cmp(amt) < 0 {
 		return
 	}
-	w.send(a, types.PlasmaContract, types.QsrTokenStandard, amt, definition.ABIPlasma.PackMethodPanic(definition.FuseMethodName, ben.Addr), "Fuse("+ben.Name+")", "")
+	w.send(a, types.PlasmaContract, w.wrongToken(a, types.QsrTokenStandard, amt), amt, definition.ABIPlasma.PackMethodPanic(definition.FuseMethodName, ben.Addr), "Fuse("+ben.Name+")", "")
 }
 
 func (w *c10World) actHtlcCreate() {
@@ -1942,7 +1985,7 @@ func (w *c10World) actQsr() {
 		if w.bal(a.Addr, types.QsrTokenStandard).Cmp(amt) < 0 {
 			return
 		}
-		w.send(a, contract, types.QsrTokenStandard, amt, abiC.PackMethodPanic(definition.DepositQsrMethodName), "DepositQsr", "")
+		w.send(a, contract, w.wrongToken(a, types.QsrTokenStandard, amt), amt, abiC.PackMethodPanic(definition.DepositQsrMethodName), "DepositQsr", "")
 	case 2:
 		// a depositor withdraws (sometimes twice in one momentum)
 		var owners []*c10Actor
